@@ -1057,9 +1057,9 @@ Proof.
     + destruct passive; [destruct nowait; exact Hj|]. cbn [fst].
       match goal with |- J (@set _ _ _ _ _ ?s1) => apply (J_FX' s1); [|apply FX_same; reflexivity] end. apply J_declare; auto.
   - destruct (alookup _ _ _); [|exact Hj]. destruct (seqb ex ""); [exact Hj|].
-    destruct (queue_found s q); [|exact Hj]. destruct (locked _ _); [exact Hj|]. destruct (bad_xmatch _); [exact Hj|]. cbn [fst].
+    destruct (queue_found s q); [|exact Hj]. destruct (locked _ _); [exact Hj|]. destruct (bad_xmatch _); [exact Hj|]. destruct (extype_eqb _ ExTopic && bad_pattern _)%bool; [exact Hj|]. cbn [fst].
     eapply J_FX'; [exact Hj|apply FX_same; reflexivity].
-  - destruct (alookup _ _ _); [|exact Hj]. destruct (queue_found s q); [|exact Hj]. destruct (locked _ _); [exact Hj|]. destruct (bad_xmatch _); [exact Hj|]. cbn [fst].
+  - destruct (alookup _ _ _); [|exact Hj]. destruct (queue_found s q); [|exact Hj]. destruct (locked _ _); [exact Hj|]. destruct (bad_xmatch _); [exact Hj|]. destruct (extype_eqb _ ExTopic && bad_pattern _)%bool; [exact Hj|]. cbn [fst].
     eapply J_FX'; [exact Hj|apply FX_same; reflexivity].
   - (* MQPurge *)
     destruct (queue_found s q) as [qu|] eqn:Eqf; [|exact Hj]. apply queue_found_get' in Eqf. destruct (locked _ _); [exact Hj|]. cbn [fst].
